@@ -2,6 +2,7 @@
 package good
 
 import (
+	"fmt"
 	"reflect"
 	"strings"
 )
@@ -48,4 +49,70 @@ func SameMap(a, b reflect.Value) bool {
 		}
 	}
 	return true
+}
+
+// AsFloat tests every numeric kind.
+func AsFloat(v interface{}) (float64, bool) {
+	switch n := v.(type) {
+	case float64:
+		return n, true
+	case float32:
+		return float64(n), true
+	case int:
+		return float64(n), true
+	case int8:
+		return float64(n), true
+	case int16:
+		return float64(n), true
+	case int32:
+		return float64(n), true
+	case int64:
+		return float64(n), true
+	case uint:
+		return float64(n), true
+	case uint8:
+		return float64(n), true
+	case uint16:
+		return float64(n), true
+	case uint32:
+		return float64(n), true
+	case uint64:
+		return float64(n), true
+	}
+	return 0, false
+}
+
+type term struct {
+	desc bool
+	name string
+}
+
+// Terms decides the direction of each term within the term's own round.
+func Terms(words []string) []term {
+	var out []term
+	count := 0
+	for _, w := range words {
+		desc := false
+		if strings.HasPrefix(w, ">") {
+			desc = true
+			w = w[1:]
+		} else if strings.HasPrefix(w, "<") {
+			w = w[1:]
+		}
+		count++
+		out = append(out, term{desc: desc, name: w})
+	}
+	_ = count
+	return out
+}
+
+// Render looks at every argument before any successful return.
+func Render(ms int64, picture, zone string) (string, error) {
+	if zone != "" && len(zone) != 5 {
+		return "", fmt.Errorf("bad zone")
+	}
+	if picture == "" {
+		picture = "default"
+	}
+	return picture + zone + strings.Repeat("0", int(ms%3)), nil
 }
